@@ -216,7 +216,6 @@ Proof.
     + exfalso. eapply (HnR (TDaemon d)); eauto.
   - inv_step H; cbn; auto.
   - inv_step H; cbn; auto.
-  - (* SweepFail *) inv_step H; cbn. exfalso. specialize (Hq (TRoot RKiller) eq_refl). rewrite E in Hq; discriminate.
   - (* OrchStop *) inv_step H; cbn.
     intros t Ht. destruct (cancel_in_cases (ph s) (filter is_ensemble (spawned s)) t) as [->| ->]; auto using quiet_cancel.
   - (* ActRootsGone *) inv_step H; cbn.
@@ -851,19 +850,17 @@ Proof.
   - intros r Hm Hr. eapply returns_after_roots; eauto.
 Qed.
 
-(* the daemon killer ends (other than by its own failure) only after its sweep, with every daemon it asked
-   either done or abandoned after its timeouts *)
+(* the daemon killer ends only after its sweep, with every daemon it asked either done or abandoned after its timeouts *)
 Lemma killer_finish_partial : forall s o s', step s (Finish (TRoot RKiller) o) = Some s' ->
-  ph s (TRoot RKiller) = PEnding o -> (forall e, o <> OErr e) ->
+  ph s (TRoot RKiller) = PEnding o ->
   swept s = true /\ forall d, In d (asked s) -> is_done (ph s (TDaemon d)) = true \/ In d (abandoned s).
 Proof.
-  intros s o s' H Hp Ho. unfold step in H. rewrite Hp in H.
+  intros s o s' H Hp. unfold step in H. rewrite Hp in H.
   match type of H with context [negb ?c] => destruct c eqn:E; [|discriminate H] end.
   apply andb_true_iff in E as [_ E]. unfold finish_ready in E.
-  destruct o; try (exfalso; eapply Ho; reflexivity);
-    apply andb_true_iff in E as [E1 E2]; (split; [exact E1|]); intros d Hin;
-    rewrite forallb_forall in E2; specialize (E2 d Hin); apply orb_true_iff in E2 as [E2|E2]; auto;
-    right; unfold mem_nat in E2; apply existsb_exists in E2 as (x&Hx&Ex); apply Nat.eqb_eq in Ex; now subst.
+  apply andb_true_iff in E as [E1 E2]. split; [exact E1|]. intros d Hin.
+  rewrite forallb_forall in E2. specialize (E2 d Hin). apply orb_true_iff in E2 as [E2|E2]; auto.
+  right. unfold mem_nat in E2. apply existsb_exists in E2 as (x&Hx&Ex). apply Nat.eqb_eq in Ex. now subst.
 Qed.
 
 (* keep-alive ends only after its final touch *)
